@@ -181,10 +181,11 @@ _agent("C06",
        [("c06_poll_one", _POLL1 + " [500,1000]+8000 ms"), ("c06_poll_one_zero", _POLL1 + " [0,1]+0 ms"), ("c06_poll_one_long", _POLL1 + " [39500,3840000]+7680000 ms (beyond one hour)"),
         ("c06_cancel_step", _CANCEL), ("c06_send_step", _SEND + "; default 500..16000+8000 ms / TCP 39500 ms")],
        [("c06_agg2_o0", _AGG), ("c06_agg2_o2", _AGG)])
-for _n, _t in [("udp_0", Q), ("udp_3", Q), ("udp_8", Q), ("tcp_8", Q), ("udp_1", T), ("udp_7", T), ("tcp_0", T), ("tcp_3", T)]:
+for _n, _t in [("udp_0", Q), ("udp_3", Q), ("udp_8", Q), ("tcp_0", Q), ("udp_1", T), ("udp_7", T), ("tcp_3", T), ("tcp_8", T)]:
     PROPS["C06"]["jobs"].append(K("c06cfg::c06_configure_" + _n, _t, encodes="configure_timeout(rto, n, last) installs exactly n intervals rto*2^k (k < n) and the final wait `last` (TCP: no retransmission, final wait = last + rto*(2^n - 1)); "
-                                  "nothing else of the transaction and nothing of another transaction changes", bounds="rto 1..=60000 ms, last 0..=60000 ms (whole milliseconds), n per harness name, arbitrary schedule position", mem=6, timeout=1200))
-PROPS["C06"]["outside"] = [o for o in PROPS["C06"]["outside"]] + ["configure_timeout with sub-millisecond Durations or retransmits > 8"]
+                                  "nothing else of the transaction and nothing of another transaction changes", bounds="rto 1..=60000 ms, last 0..=60000 ms (whole milliseconds), n per harness name, arbitrary schedule position", mem=6, timeout=1200 if _t == Q else 7200))
+PROPS["C06"]["outside"] = [o for o in PROPS["C06"]["outside"]] + ["configure_timeout with sub-millisecond Durations or retransmits > 8",
+                                                              "QUICK TIER: the TCP sum for retransmits > 0 (tcp_3 / tcp_8: the Duration fold does not finish in 20 min; thorough tier)"]
 _agent("C07", [("c07_handle_step", _HANDLE), ("c07_send_step", _SEND + "; request_had_credentials false without integrity attribute"),
                ("c07_send_step_sha256", "request_had_credentials true with MESSAGE-INTEGRITY-SHA256")],
        [("c07_send_step_sha1", "request_had_credentials true with MESSAGE-INTEGRITY (> 20 min, > 20 GB: thorough tier only)")])
@@ -252,6 +253,7 @@ PROPS["C12"] = dict(
 )
 
 PROPS["C03"] = dict(
+    note="QUICK TIER is compositional (builder byte layout + parser-vs-reference on all buffers <= 32 bytes); seals none / SHA-256.",
     functions=_BUILD_FUNCS + _PARSE_FUNCS,
     bounds="builder side: all classes x methods x transaction ids x one raw attribute (type 0x7f01, symbolic content, 0..=7 value bytes over the harnesses = every padding residue) x 7 of the 8 sealing combinations; "
            "QUICK TIER seals: none and SHA-256 (the SHA-1 and FINGERPRINT sealing paths are thorough-tier: > 10 min / > 30 GB each in CBMC); parser side: every buffer of 0..=32 bytes (C02's harnesses, registered here too): what a buffer encodes is what the parser exposes",
@@ -288,8 +290,9 @@ PROPS["C04"] = dict(
 )
 
 PROPS["C11"] = dict(
+    note="QUICK TIER: operation sequences of length 2 (one ordering rule each); length-4 sequences incl. SHA-1/FINGERPRINT operations are thorough-tier.",
     functions=_BUILD_FUNCS + ["Message::validate_integrity"],
-    bounds="6 (quick) + 8 (thorough) operation sequences of length 4 over {add raw X, add raw Y, SHA-1 integrity, SHA-256 integrity, fingerprint, into_owned, clone} chosen to hit every rule of the statement "
+    bounds="QUICK: 7 sequences of length 2 (one rule each: duplicate, add after SHA-256 integrity, duplicate SHA-256, SHA-1 after SHA-256, two distinct attributes, into_owned, clone) -- a builder holding 3 attributes already needs > 20 GB in CBMC (measured); THOROUGH: 14 sequences of length 4 over {add raw X, add raw Y, SHA-1 integrity, SHA-256 integrity, fingerprint, into_owned, clone} chosen to hit every rule of the statement "
            "(duplicate of the last / of an earlier attribute, after integrity, after fingerprint, SHA-1 after SHA-256, duplicate seals, refusal after into_owned/clone); message type, transaction id, attribute values and the queried type are symbolic",
     outside=["sequences other than the enumerated ones and sequences longer than 4 (the statement asks for all sequences up to length 7): the guards read only the list of attribute types present, which these sequences drive through every combination of {ordinary, MI, SHA256, FP} present/absent that a refusal depends on",
              "QUICK TIER: 'the serialised message is accepted by the parser with valid integrity and fingerprint' is compositional (the final builder's byte_len/queries/serialised length are asserted here, the byte layout incl. MAC/CRC input in the C03/C04 layout harnesses, acceptance of that layout in C02); "
@@ -298,9 +301,9 @@ PROPS["C11"] = dict(
     stubs=[_REC_STUB, _MEMO_STUB + " (thorough)", "core::str::from_utf8 -> RFC 3629 reference (Software::new in the thorough harness)"],
     jobs=[K("blayout::c11_rules_%s" % o, encodes="each operation refused exactly per the ordering rules; a refused operation leaves byte_len()/has_attribute(q) unchanged; into_owned/clone change nothing; final queries, byte_len and serialised length agree with the accepted operations",
             bounds="ops %s" % o, mem=8, timeout=1500)
-          for o in ["1215", "5512", "2812", "1171", "1752", "2127"]]
-         + [K("blayout::c11_rules_%s" % o, T, encodes="same, sequences with SHA-1 integrity / FINGERPRINT operations", bounds="ops %s" % o, mem=40, timeout=7200)
-            for o in ["1141", "4546", "5456", "6456", "1216", "2861", "4675", "5666"]]
+          for o in ["11", "51", "55", "54", "21", "17", "18"]]
+         + [K("blayout::c11_rules_%s" % o, T, encodes="same, longer sequences and sequences with SHA-1 integrity / FINGERPRINT operations", bounds="ops %s" % o, mem=45, timeout=7200)
+            for o in ["1215", "5512", "2812", "1171", "1752", "2127", "1141", "4546", "5456", "6456", "1216", "2861", "4675", "5666"]]
          + [K("builder::c11_ops_%d" % o, T, encodes="as above + after every refusal build() is byte-identical; final message parses, validates, queries agree with the parsed message",
               bounds="ops %d" % o, mem=30, timeout=7200, unwindset=_MEMO_UW) for o in (1141, 4546, 3736, 2861)],
 )
@@ -309,6 +312,7 @@ _POLICE_UW = [["id:check_attribute_types", "*", 3], ["stun-types/src/message.rs"
 _POLICE_STUB = ("Message::unknown_attributes / Message::bad_request -> recorder stubs that record their arguments and return the REAL Message::builder_error(request) "
                 "(the verdict logic of check_attribute_types and builder_error's panic check are the real code; the attribute-adding half of the constructors is decided in c16_response_*_parses_back)")
 PROPS["C16"] = dict(
+    note="QUICK TIER decides only the comprehension-required classification and the wire form of the response attributes; the policing verdict is decided by the thorough tier (22+ min).",
     functions=["Message::{check_attribute_types,unknown_attributes,bad_request,builder_error}", "AttributeType::comprehension_required", "ErrorCode::new", "UnknownAttributes::new",
                "MessageBuilder::{add_attribute,into_owned,build}", "Message::from_bytes", "Message::attribute"],
     bounds="every accepted request of <= 28 bytes (<= 2 attributes) x every supported/required list of <= 2 types; the 420/400 responses parsed back for all methods, ids and (two) unsupported types; all 65536 types for comprehension_required",
